@@ -164,7 +164,11 @@ func c14Run(rt *rapid.T, p c14Plan, seed string) (m *lm, log []string, nontrivia
 	S := m.snaps[0]
 	stream, err := c14Collect(src.Book)
 	if err != nil {
-		m.addViol("C08", "stuck:stream", "StreamDAG did not finish: %v", err)
+		if errors.Is(err, sim.ErrStuck) {
+			m.stuckViol("stream", err)
+			return m, log, false, "stuck: " + err.Error()
+		}
+		m.addViol("C08", "panic:stream", "StreamDAG did not finish: %v", err)
 		return m, log, false, ""
 	}
 	if len(S.Live) == 0 {
@@ -434,6 +438,11 @@ func c14ReplayRun(p c14Plan, seed string, ops []sim.Op) (string, string) {
 	S := m.snaps[0]
 	stream, err := c14Collect(m.w.Nodes[0].Book)
 	if err != nil {
+		if errors.Is(err, sim.ErrStuck) {
+			if ok, _ := sim.ConfirmStuck(5, 400*time.Millisecond); !ok {
+				return "", ""
+			}
+		}
 		return "stream-stuck", err.Error()
 	}
 	streamed := map[ref.Hash]int{}
